@@ -95,18 +95,58 @@ func rtypeIface(t types.Type) Value {
 	return refTo(&IfaceVal{T: rtypeModelType, V: refTo(typeRefOf(t))})
 }
 
+// the payload is boxed (ref -> IfaceVal{T, V}) so that every reflect.Value has the same shape and can
+// be ite-merged / stored under symbolic guards
 func mkReflectValue(t types.Type, v Value) *StructV {
-	return &StructV{F: []Value{refTo(typeRefOf(t)), v, BV(kindOf(t), 64)}}
+	return &StructV{F: []Value{refTo(typeRefOf(t)), refTo(&IfaceVal{T: t, V: v}), BV(kindOf(t), 64)}}
 }
 
 func zeroReflectValue() *StructV {
-	return &StructV{F: []Value{nilRef(), BV(0, 64), BV(0, 64)}}
+	return &StructV{F: []Value{nilRef(), nilRef(), BV(0, 64)}}
+}
+
+// rvInner unboxes the payload of a reflect.Value under guard g.
+func rvInner(sv Value, g *Term) Value {
+	r := pruneRefUnder(sv.(*StructV).F[1].(*RefV), g)
+	if len(r.Alts) != 1 {
+		inconclusive("reflect.Value payload not unique: %s", valStr(r))
+	}
+	iv, ok := r.Alts[0].R.(*IfaceVal)
+	if !ok {
+		return nilRef()
+	}
+	return iv.V
 }
 
 // rvType returns the static type of a reflect.Value (nil if invalid / not unique).
 func rvType(cc *CallCtx, v Value) types.Type {
 	s := v.(*StructV)
 	r := pruneRefUnder(s.F[0].(*RefV), cc.c.g)
+	if len(r.Alts) > 1 && cc.site.Call != nil && !cc.site.Common.IsInvoke() && len(cc.site.Common.Args) > 0 {
+		// fork on the type of the receiver Value (argument 0): each clone re-executes the call
+		if reg := cc.site.Common.Args[0]; cc.f.regs[reg] == v {
+			for _, a := range r.Alts {
+				n := cc.c.clone()
+				n.g = And(cc.c.g, a.G)
+				ns := &StructV{F: append([]Value(nil), s.F...)}
+				ns.F[0] = &RefV{Alts: []RefAlt{{TS.True, a.R}}}
+				ns.F[1] = pruneRefUnder(s.F[1].(*RefV), n.g)
+				if t, ok := s.F[2].(*Term); ok {
+					ns.F[2] = restrictTerm(t, n.g)
+				}
+				nf := n.top()
+				nf.regs[reg] = ns
+				if !(nf.opTagBlk == nf.blk.Index && nf.opTagIdx == nf.idx) {
+					nf.opTag = ""
+				}
+				nf.opTag += "rv:" + refIdent(a.R) + ";"
+				nf.opTagBlk, nf.opTagIdx = nf.blk.Index, nf.idx
+				cc.e.enqueue(n)
+			}
+			cc.c.g = TS.False
+			return nil
+		}
+	}
 	if len(r.Alts) != 1 {
 		inconclusive("reflect.Value with non-unique type at %s", cc.e.posOf(cc.c))
 	}
@@ -211,7 +251,7 @@ func init() {
 			cc.e.raise(cc.c, TS.True, "reflect: call of reflect.Value.Interface on zero Value")
 			return nilRef()
 		}
-		v := cc.args[0].(*StructV).F[1]
+		v := rvInner(cc.args[0], cc.c.g)
 		if _, isI := t.Underlying().(*types.Interface); isI {
 			return v
 		}
@@ -224,7 +264,7 @@ func init() {
 			return BV(0, 64)
 		}
 		res := BV(0, 64)
-		r, ok := cc.args[0].(*StructV).F[1].(*RefV)
+		r, ok := rvInner(cc.args[0], cc.c.g).(*RefV)
 		if !ok {
 			cc.e.raise(cc.c, TS.True, "reflect: call of reflect.Value.Pointer on non-pointer kind")
 			return res
@@ -257,7 +297,7 @@ func init() {
 			cc.e.raise(cc.c, TS.True, "reflect: call of reflect.Value.IsNil on non-nilable kind")
 			return TS.False
 		}
-		switch v := cc.args[0].(*StructV).F[1].(type) {
+		switch v := rvInner(cc.args[0], cc.c.g).(type) {
 		case *RefV:
 			return isNilTerm(v)
 		case *SliceV:
@@ -277,7 +317,7 @@ func init() {
 				cc.e.raise(cc.c, TS.True, "reflect: TryRecv on non-chan")
 				return &StructV{F: []Value{zeroReflectValue(), TS.False}}, true
 			}
-			ch, ok := cc.e.chanOf(cc.c, cc.args[0].(*StructV).F[1].(*RefV))
+			ch, ok := cc.e.chanOf(cc.c, rvInner(cc.args[0], cc.c.g).(*RefV))
 			if !ok {
 				return &StructV{F: []Value{zeroReflectValue(), TS.False}}, true
 			}
@@ -402,3 +442,164 @@ func init() {
 
 var _ = fmt.Sprintf
 var _ ssa.Value
+
+func init() {
+	// reflect.Select(cases []SelectCase) (chosen int, recv Value, recvOK bool): the channel model's select
+	// over the cases of the slice (send cases only on buffered channels).
+	type rcase struct {
+		in   *Term // i < len
+		send bool
+		ch   *ChanObj
+		val  Value
+		elem types.Type
+		slot int
+	}
+	gather := func(cc *CallCtx) []rcase {
+		e := cc.e
+		sl, ok := cc.args[0].(*SliceV)
+		if !ok {
+			inconclusive("reflect.Select on %T", cc.args[0])
+		}
+		n := e.sliceMaxLen(sl)
+		var out []rcase
+		for i := 0; i < n; i++ {
+			in := Ult(BV(uint64(i), 64), sl.Len)
+			if in.IsFalse() || semFalse(And(cc.c.g, in)) {
+				continue
+			}
+			p := e.elemRef(cc.c, sl.Base, Add(sl.Off, BV(uint64(i), 64)))
+			if len(p.Alts) == 0 {
+				continue
+			}
+			cv := resolveDeep(e.loadNoPanic(cc.c, p), And(cc.c.g, in)).(*StructV)
+			dir, okd := cv.F[0].(*Term)
+			if !okd {
+				inconclusive("reflect.Select: case %d direction is not a plain value", i)
+			}
+			for _, d := range []uint64{1, 2, 3} {
+				gd := And(in, Eq(restrictTerm(dir, And(cc.c.g, in)), BV(d, dir.w)))
+				if gd.IsFalse() || semFalse(And(cc.c.g, gd)) {
+					continue
+				}
+				if d == 3 {
+					inconclusive("reflect.Select with a default case is not modelled")
+				}
+				chv := cv.F[1].(*StructV)
+				boxes := pruneRefUnder(chv.F[1].(*RefV), And(cc.c.g, gd))
+				for _, ba := range boxes.Alts {
+					iv, ok := ba.R.(*IfaceVal)
+					if !ok {
+						out = append(out, rcase{in: And(gd, ba.G), send: d == 1, slot: i})
+						continue
+					}
+					chr, ok := iv.V.(*RefV)
+					if !ok {
+						continue
+					}
+					for _, ca := range pruneRefUnder(chr, And(cc.c.g, gd, ba.G)).Alts {
+						rc := rcase{in: And(gd, ba.G, ca.G), send: d == 1, slot: i}
+						if ch, ok := ca.R.(*ChanObj); ok {
+							rc.ch = ch
+						}
+						if rc.send {
+							rc.val = rvInner(cv.F[2], And(cc.c.g, rc.in))
+						}
+						if semFalse(And(cc.c.g, rc.in)) {
+							continue
+						}
+						out = append(out, rc)
+					}
+				}
+			}
+		}
+		return out
+	}
+	ready := func(cc *CallCtx, rc rcase) *Term {
+		if rc.ch == nil {
+			return TS.False
+		}
+		if rc.send {
+			if rc.ch.Cap == 0 {
+				if rc.ch.Kind != "" {
+					return TS.False // a context's Done channel is never a send target: infeasible pairing
+				}
+				inconclusive("reflect.Select: send on an unbuffered channel is not modelled (use buffered targets)")
+			}
+			return And(rc.in, cc.e.sendReady(cc.c, rc.ch, 0))
+		}
+		return And(rc.in, cc.e.recvReady(cc.c, rc.ch))
+	}
+	models["reflect.Select"] = &Model{
+		TakeoverEnabled: func(cc *CallCtx, ph int) *Term {
+			var rs []*Term
+			for _, rc := range gather(cc) {
+				rs = append(rs, ready(cc, rc))
+			}
+			return Or(rs...)
+		},
+		Takeover: func(cc *CallCtx) bool {
+			e := cc.e
+			return e.visibleOp(cc.c, cc.rest,
+				func(int) *Term {
+					var rs []*Term
+					for _, rc := range gather(cc) {
+						rs = append(rs, ready(cc, rc))
+					}
+					return Or(rs...)
+				},
+				func(int) bool {
+					c := cc.c
+					cases := gather(cc)
+					var rd []*Term
+					multi := 0
+					for _, rc := range cases {
+						r := ready(cc, rc)
+						rd = append(rd, r)
+						if !r.IsFalse() {
+							multi++
+						}
+					}
+					var ch *Term
+					if multi > 1 {
+						ch = e.choiceVar(c)
+					}
+					pointed := TS.False
+					if ch != nil {
+						for i := range cases {
+							pointed = Or(pointed, And(Eq(ch, BV(uint64(i), 8)), rd[i]))
+						}
+					}
+					earlier := TS.False
+					idx := BV(0, 64)
+					recvOK := TS.False
+					var recv Value = zeroReflectValue()
+					base := c.g
+					for i, rc := range cases {
+						byPtr := TS.False
+						if ch != nil {
+							byPtr = And(Eq(ch, BV(uint64(i), 8)), rd[i])
+						}
+						sel := Or(byPtr, And(Not(pointed), rd[i], Not(earlier)))
+						earlier = Or(earlier, rd[i])
+						if sel.IsFalse() {
+							continue
+						}
+						// the index is the position in the slice: cases are gathered in order, positions
+						// skipped by gather are impossible under the guard
+						idx = Ite(sel, BV(uint64(rc.slot), 64), idx)
+						c.g = And(base, sel)
+						if rc.send {
+							e.doSend(c, rc.ch, rc.val, 0)
+						} else {
+							v, ok := e.doRecv(c, rc.ch)
+							recvOK = Ite(sel, ok, recvOK)
+							rv := mkReflectValue(rc.ch.T, v)
+							recv = iteValue(sel, rv, recv)
+						}
+					}
+					c.g = And(base, earlier)
+					cc.finish(&StructV{F: []Value{idx, recv, recvOK}})
+					return true
+				})
+		}}
+}
